@@ -84,6 +84,40 @@ def _rc(lst, i):
     return sys.getrefcount(lst[i])
 
 
+class DyingKey:
+    """Equal to every other DyingKey for the same interface, and a
+    specification as far as lookups are concerned."""
+
+    def __init__(self, world, iface, fires):
+        self.world, self.iface, self.fires = world, iface, fires
+
+    __sro__ = property(lambda self: self.iface.__sro__)
+    __iro__ = property(lambda self: self.iface.__iro__)
+
+    def weakref(self, callback=None):
+        import weakref
+        return weakref.ref(self, callback)
+
+    def subscribe(self, dependent):
+        self.iface.subscribe(dependent)
+
+    def unsubscribe(self, dependent):
+        self.iface.unsubscribe(dependent)
+
+    def __hash__(self):
+        return hash(self.iface) ^ 1
+
+    def __eq__(self, other):
+        return isinstance(other, DyingKey) and other.iface is self.iface
+
+    def __del__(self):
+        if self.fires:
+            try:
+                self.world.fire('key-destructor')
+            except BaseException as e:
+                self.world.log.append(('destructor-raised', type(e).__name__))
+
+
 class World:
     def __init__(self, flavour, site=None, action=None, audit=True, extendors=False):
         newworld()
@@ -94,6 +128,7 @@ class World:
         self.fired = 0
         self.audit = audit
         self.generation_fails = 0
+        self.keepkey = None
         self.pinned = []           # (dict, snapshot of contents, refcount after action)
         self.log = []
         W = self
@@ -296,7 +331,18 @@ class World:
 
             def __len__(s):
                 return 1
-        req = Lazy() if lazy else [I1]
+        if lazy in ('twin', 'twin-keep'):
+            # a one-shot iterable that is the only owner of the specification
+            # it yields: a stand-in for I1 (what a declaration re-created for
+            # the same class would be: equal to the one the caches know, not
+            # identical) whose destructor is a call-out site
+            if lazy == 'twin-keep':
+                self.keepkey = self.keepkey or DyingKey(W, I1, False)
+                req = (k for k in (self.keepkey,))
+            else:
+                req = (DyingKey(W, I1, True) for _ in (0,))
+        else:
+            req = Lazy() if lazy else [I1]
         if entry == 'lookup':
             return reg.lookup(req, P, '')
         if entry == 'lookup-default':
@@ -340,6 +386,7 @@ ACTIONS = ['nop', 'register-better', 'register-other-name', 'unregister-winner',
            'register-then-raise', 'changed-then-gc', 'reenter-then-register-in-base',
            'register-while-generation-fails']
 SITES = ['required-iter', 'providedBy', 'conform', 'factory', 'generation', 'value-destructor',
+         'key-destructor',
          # the value dies inside the changed() of another kind of mutation (verifying
          # registries: it was removed from a base and lived on in the caches below)
          'value-destructor/subscribe-new-provided', 'value-destructor/register-new-provided',
@@ -462,9 +509,11 @@ def scenario(case, light=False):
     flavour, entry, site, action, warm = case
     if site.startswith('value-destructor'):
         return scenario_destructor(case, light)
-    lazy = site == 'required-iter'
+    lazy = 'twin' if site == 'key-destructor' else site == 'required-iter'
     if lazy and entry not in LAZY_OK:
         return None, False
+    if lazy == 'twin' and action in ('raise', 'register-then-raise', 'register-while-generation-fails'):
+        return None, False          # an exception in a destructor goes nowhere
     if site == 'generation' and flavour != 'verifying':
         return None, False
     # before / after answers from twin worlds
@@ -480,6 +529,10 @@ def scenario(case, light=False):
         for e in ENTRIES:
             w.call(e, e in LAZY_OK)
         w.armed = True
+        if site == 'key-destructor':
+            w.armed = False
+            w.call(entry, 'twin-keep')       # the caches know an equal key
+            w.armed = True
         if site.startswith('uncached') or site == 'generation':
             # warm caches would skip the uncached path: invalidate through a
             # base registry (verifying) / directly, keeping the containers
@@ -1022,7 +1075,7 @@ def run(ctx):
                    'reenter-same', 'gc', 'reenter-then-register-in-base', 'register-while-generation-fails')
     if quick:
         mc = [c for c in cases if c[3] in MUT_ACTIONS and
-              (c[2].startswith('uncached') or c[2] in ('generation', 'required-iter') or c[2].startswith('value-destructor'))]
+              (c[2].startswith('uncached') or c[2] in ('generation', 'required-iter', 'key-destructor') or c[2].startswith('value-destructor'))]
     else:
         mc = list(cases)
     # keep only scenarios that can reach their site (cheap pre-filter by pairing)
@@ -1036,7 +1089,7 @@ def run(ctx):
             return e not in ('lookupAll', 'names', 'subscriptions', 'subscribers')
         if site == 'generation':
             return c[0] == 'verifying'
-        if site == 'required-iter':
+        if site in ('required-iter', 'key-destructor'):
             return e in LAZY_OK
         if site.startswith('value-destructor'):
             return e in DESTRUCTOR_ENTRIES
